@@ -4,6 +4,8 @@
    function H and every list (no size bound). *)
 From BV Require Import Common.Base Common.Hash Model.Merkle Spec.Merkle Proofs.Merkle Gen.Core.
 From BV Require Import Common.Tx Spec.Wire Model.Wire Model.Weight Proofs.Weight.
+From BV Require Spec.Check Model.Check.
+From BV Require Import Proofs.MerkleWire.
 
 (* merkle root of every non-empty list of txids = reference algorithm (adjacent pairs, last
    node paired with itself on odd levels, single id => itself); build_merkle_tree_from_txids(l)[-1] *)
@@ -162,6 +164,32 @@ Theorem C15_block_weight : forall b, wf_header (b_hdr b) ->
   block_get_weight b = 3 * lenZ (wire_block_stripped b) + lenZ (wire_block b).
 Proof. exact block_weight. Qed.
 
+(* ---------- end to end on transactions given as values (wire model C01, identifiers C02) ---------- *)
+(* For every non-empty list of transactions whose fields are in wire range: the list the
+   block constructor builds its trees from exists, calc_merkle_root over it is the reference
+   root over H(witness-stripped wire form), calc_witness_merkle_root is the reference witness
+   root over H(full wire form) when some transaction has witness data and NoWitnessData
+   otherwise.  No identifier is an input: both are computed by the model of GetTxid/GetHash. *)
+Theorem C15_roots_from_wire : forall (H : bytes -> bytes) (vtx : list tx), vtx <> [] -> Forall Spec.Check.tx_in_range vtx ->
+  exists txvs r, Model.Check.block_txvs H vtx = Ok txvs /\
+    spec_root H (map (fun t => H (wire_tx_stripped t)) vtx) = Some r /\ calc_merkle_root H txvs = Ok r /\
+    (existsb has_witness vtx = true ->
+       exists wr, spec_witness_root H (map (fun t => H (wire_tx t)) vtx) = Some wr /\
+                  calc_witness_merkle_root H txvs = Ok wr) /\
+    (existsb has_witness vtx = false -> calc_witness_merkle_root H txvs = Err NoWitnessData).
+Proof. exact roots_from_wire. Qed.
+(* ... and the constructor on them: zero => filled in with that root, equal => kept, anything
+   else (a byte-reversed root included) => CheckBlockError *)
+Theorem C15_constructor_from_wire : forall (H : bytes -> bytes), (forall x, length (H x) = 32%nat) ->
+  forall prev root (vtx : list tx), vtx <> [] -> Forall Spec.Check.tx_in_range vtx -> length prev = 32%nat ->
+  exists txvs r, Model.Check.block_txvs H vtx = Ok txvs /\
+    spec_root H (map (fun t => H (wire_tx_stripped t)) vtx) = Some r /\
+    (root = zeros 32 \/ root = r ->
+       exists b, cblock_init H prev root txvs = Ok b /\ cb_hashMerkleRoot b = r /\
+                 calc_merkle_root H (cb_vtx b) = Ok r) /\
+    (root <> zeros 32 -> root <> r -> cblock_init H prev root txvs = Err CheckBlockErr).
+Proof. exact constructor_from_wire. Qed.
+
 Print Assumptions C15_merkle_root.
 Print Assumptions C15_block_merkle_root.
 Print Assumptions C15_spec_equations.
@@ -179,3 +207,5 @@ Print Assumptions C15_block_weight_param.
 Print Assumptions C15_tx_weight.
 Print Assumptions C15_tx_weight_assert.
 Print Assumptions C15_block_weight.
+Print Assumptions C15_roots_from_wire.
+Print Assumptions C15_constructor_from_wire.
